@@ -173,6 +173,12 @@ QUERIES = [
     ("SELECT y, vyield(y) AS v FROM #u", None),
     ("BALANCES AT units", None),
     ("JOURNAL 'Cash|Checking'", None),
+    # yield points while the aggregates of a group are being read (between two aggregate targets)
+    ("SELECT s, count(*) AS n, vyield(count(*)) AS y, sum(x) AS t, vyield(max(x)) AS m, min(x) AS lo FROM #t GROUP BY s ORDER BY s", None),
+    ("SELECT account, count(*) AS n, vyield(count(*)) AS y, sum(position) AS s, vyield(1) + count(*) AS z, last(date) AS d GROUP BY account", None),
+    # decimal rounding on exact ties (the decimal context is per thread)
+    ("SELECT account, round(number / 8, 2) AS r, round(2.50) AS t, round(0.125, 2) AS u, round(number) AS w WHERE vyield(1) = 1", None),
+    ("SELECT x, round(x / 8, 2) AS r, round(x / 2) AS h, round(0.5) AS t, round(1.5) AS u, round(0.125, 2) AS v FROM #t", None),
 ]
 
 
@@ -229,6 +235,9 @@ def prop_schedule(sh, case):
         text, params = QUERIES[qs[i]]
         # each thread slot has its own parsed statement (parsed statements are not shared between threads);
         # parsing happens once per process and slot, TatSu being slow
+        if case.get('as_text'):
+            # the statement goes through Connection.execute as text (parsed inside the thread)
+            return lambda: conns[i].execute(text, params).fetchall()
         statement = parsed_for_slot(text, i)
         return lambda: conns[i].execute(statement, params).fetchall()
     sched = Sched(n, schedule)
@@ -262,25 +271,32 @@ def schedule_case(draw):
     qs = [draw(st.integers(0, len(QUERIES) - 1)) for _ in range(n)]
     if draw(st.integers(0, 3)) == 0:
         qs[1] = qs[0] ^ 1 if qs[0] ^ 1 < len(QUERIES) else qs[0]     # the sibling statement with other parameters
-    style = draw(st.sampled_from(['fine', 'runs']))
+    same = draw(st.integers(0, 3)) == 0
+    if same:
+        # the same statement text from two threads on one connection
+        qs = [qs[0]] * n
+    style = draw(st.sampled_from(['fine', 'runs', 'runs']))
     if style == 'fine':
         schedule = draw(st.lists(st.integers(0, n - 1), max_size=80))
     else:
-        runs = draw(st.lists(st.tuples(st.integers(0, n - 1), st.integers(1, 12)), max_size=20))
+        runs = draw(st.lists(st.tuples(st.integers(0, n - 1), st.integers(1, 25)), max_size=20))
         schedule = [t for t, k in runs for _ in range(k)]
-    return {'queries': qs, 'sharing': draw(st.sampled_from(['shared', 'separate', 'separate-ledgers'])), 'schedule': schedule}
+    if same:
+        return {'queries': qs, 'sharing': 'shared', 'schedule': schedule, 'as_text': draw(st.booleans())}
+    return {'queries': qs, 'sharing': draw(st.sampled_from(['shared', 'separate', 'separate-ledgers'])), 'schedule': schedule,
+            'as_text': draw(st.integers(0, 3)) == 0}
 
 
 def prop_exhaustive(sh, case):
     """All schedules of length L for fixed pairs of queries (the rest of the run follows thread order)."""
     fails = []
     pairs = [((0, 0), 'separate'), ((0, 0), 'shared'), ((2, 1), 'separate-ledgers'), ((12, 13), 'shared'), ((16, 17), 'shared'),
-             ((8, 9), 'shared'), ((3, 6), 'separate')]
+             ((8, 9), 'shared'), ((3, 6), 'separate'), ((21, 21), 'shared'), ((22, 22), 'shared'), ((4, 4), 'shared'), ((23, 24), 'separate')]
     L = case['length']
     mine = [(p, s) for i, (p, s) in enumerate(pairs) if i % case['of'] == case['index']]
     for (qa, qb), sharing in mine:
         for schedule in itertools.product([0, 1], repeat=L):
-            c = {'queries': [qa, qb], 'sharing': sharing, 'schedule': list(schedule)}
+            c = {'queries': [qa, qb], 'sharing': sharing, 'schedule': list(schedule), 'as_text': qa == qb and qa >= 21 and sum(schedule[:3]) == 1}
             for sig, detail in prop_schedule(sh, c):
                 fails.append((f'exhaustive:{sig}', detail))
             if fails:
@@ -302,8 +318,8 @@ def run(sh):
     if sh.index == 0:
         for sig, detail in prop_module(sh, None):
             sh.fail(sig, detail, None, 'module')
-    case = {'length': 8 if sh.tier == 'quick' else 12, 'index': sh.index % 7, 'of': 7}
-    if sh.index < 7:
+    case = {'length': 8 if sh.tier == 'quick' else 12, 'index': sh.index % 11, 'of': 11}
+    if sh.index < 11:
         for sig, detail in prop_exhaustive(sh, case):
             sh.fail(sig, detail, case, 'exhaustive')
     sh.extra['exhaustive_schedule_prefix_length'] = case['length']
